@@ -144,6 +144,13 @@ func (x *Exec) load(st *State, lv *lval) Val {
 		b := x.load(st, lv.base)
 		v, ok := x.vc.selField(b, lv.field)
 		if !ok {
+			if stt, isS := lv.base.typ.Underlying().(*types.Struct); isS {
+				for i := 0; i < stt.NumFields(); i++ {
+					if stt.Field(i).Name() == lv.field {
+						return x.opaqueField(b, lv.base.typ, stt.Field(i))
+					}
+				}
+			}
 			panic(unsupported(fmt.Sprintf("field %s on sort %s", lv.field, b.Sort)))
 		}
 		return v
